@@ -148,7 +148,13 @@ pub fn run(rep: &mut Report, tier: &str, seed: u64) {
         let mode: u8 = match ci % 6 { 0 => 0, 1 | 2 | 3 => 1, 4 => 2, _ => 0 };
         let mutated = ci % 6 == 5;
         let opts = Opts { fragment: false, fault_pct: 0, max_stanzas: 3, allow_print: true, universal: r.chance(1, 4), probe: r.chance(1, 6), scoped_heavy: r.chance(1, 5), keywordish_names: false, static_fault: mode };
+        if mode == 1 {
+            // walk the catalogue x sub-form product instead of sampling it
+            let k = ci / 6 * 3 + (ci % 6 - 1);
+            crate::gen::dsl::FORCE_RULE.with(|c| c.set(Some((k % 18, (k / 18) % 6))));
+        }
         let program = gen_program(&mut r, &pool, &opts);
+        crate::gen::dsl::FORCE_RULE.with(|c| c.set(None));
         let text = if mutated { mutate_lines(&mut r, &program.text) } else { program.text.clone() };
         let real = match real_load(&text) {
             Ok(x) => x,
